@@ -74,6 +74,8 @@ def check_one(f, as_bytearray=False):
         return [("str-cpu-timeout", f"str(filter) of a tree nested {depth(f)} deep did not return within 20 CPU-seconds")]
     except Exception as e:
         return [(f"str-exc:{norm_msg(e)}", f"str(filter) raised {type(e).__name__}: {e}")]
+    if len(s) > 300_000:  # cost on big inputs is C18's subject; the 10 CPU-second reparse budget below is meant for ordinary sizes
+        return []
     try:
         with cpu_limit(10):
             back = sl.LDAPFilter.from_string(s)
